@@ -343,7 +343,11 @@ Definition ex_c : cstate := csteps (CS ex_store2 None ex_thr0) ex_sched.
 Definition ex_c1 : cstate := csteps (CS ex_store2 None ex_thr0) (firstn 30 ex_sched).
 Example ex_concurrent_init : init_ok ex_thr0.
 Proof.
-  intros t th. unfold ex_thr0. destruct (t <? 3)%nat; [|discriminate]. intros H; injection H; intros <-. split; reflexivity.
+  intros t th. unfold ex_thr0. destruct (t <? 3)%nat; [|discriminate]. intros H.
+  (* NB [injection H] on this equation does not terminate in reasonable time (it normalises the
+     clock term); [congruence] does *)
+  assert (E : th = Thr ex_env ex_opts (T + Z.of_nat t) Fresh []) by congruence.
+  rewrite E. split; reflexivity.
 Qed.
 Example ex_concurrent_end :
   (is_finished ex_c 0%nat, is_finished ex_c 1%nat, is_finished ex_c 2%nat, cs_holder ex_c) = (true, true, true, None).
